@@ -39,6 +39,8 @@ SPEC = {
 
 SPEC['explanation'] += ' T11.replace: update() never delegates to the adding bulk operations (update_extend / extend).'
 SPEC['decided'] += ['update does not delegate to adding siblings']
+SPEC['explanation'] += " T9.exhaust: two OMDs compare equal only on paths where both pair iterators were seen exhausted. T26 also covers setdefault and the other accessors (no presence decision on a None-defaulted get). T14.get: get/getlist/pop/poplast answer with a looked-up value or the caller's default."
+SPEC['decided'] += ['both pair sequences exhausted before True', 'no None-presence decisions in accessors', 'default returned, never a constant']
 MANIFEST = {
     'technique': 'paired-effect (lock-step) analysis over all feasible CFG paths with inlined helpers; MRO override closure; one-pass (consumption count) dataflow; copy-protocol and discarded-result rules',
     'text': ('Decides the structural half of C01 for every path of every method of both OMD copies: the per-key value '
